@@ -328,7 +328,23 @@ func init() {
 				}
 				return
 			}
+			var preOps []string
+			if c.Idx%3 == 0 && len(weights) >= 3 {
+				// a member is ejected and then removed while it is ejected: what is left is a smaller pool, nothing else
+				var names []string
+				for _, b := range sys.LB.VerifBackends() {
+					names = append(names, b.Name)
+				}
+				victim := names[c.Idx/3%len(names)]
+				pickSeq(sys, 1+c.Idx%5)
+				sys.LB.MarkBackendUnhealthy(sys.liveBackend(victim), time.Hour)
+				adminDo(sys.admin(), "POST", "/v1/backends/remove", "127.0.0.1:1", nil, fmt.Sprintf(`{"name":%q}`, victim))
+				delete(weights, victim)
+				preOps = []string{"eject(" + victim + ")", "remove(" + victim + ")"}
+				o.Obs("hist_removed_while_ejected", 1)
+			}
 			ops, ejected := c05History(e, sys, "c05wrr", c.Idx*7919+len(c.Weights), weights, o)
+			ops = append(preOps, ops...)
 			Wtot, WE := 0, 0
 			for n, w := range weights {
 				Wtot += w
